@@ -87,3 +87,4 @@ pub proof fn lemma_desc_adjacent(cs: Seq<char>, es: Seq<SpanEdit>, k: int)
         assert(edit_ok(cs, es[0]));
     }
 }
+
